@@ -14,7 +14,7 @@ import leafgen as lg
 import treegen as tg
 
 ID = 'C04'
-GEN = ['kernels', 'constraints']
+GEN = ['kernels', 'constraints', 'basedevice']
 PROPS = 'Props/C04.v'
 MODEL_VO = ['Model/Tree.v']
 SHARD = 25
